@@ -3,7 +3,7 @@
 From HP Require Import Base.Bytes Base.Utf8 Base.Num Model.Scanner Model.Parser Model.Elements Model.Resolver
   Model.Dates Model.Tree Model.Writer Model.Reporters Model.Cli.
 From HP Require Import Proofs.MalformedBase Proofs.MalformedLint Proofs.MalformedBook Proofs.MalformedLog
-  Proofs.MalformedRun.
+  Proofs.MalformedRun Proofs.MalformedLines.
 Open Scope N_scope.
 
 Definition lines (l : list bytes) : bytes := concat (map (fun x => x ++ [c_lf]) l).
@@ -67,6 +67,21 @@ Proof.
   - exact ex_log6_readable.
 Qed.
 
+Example ex_lint_output_lines :
+  split_on c_lf (out_stdout (run_lint ZNum (mkw book_good log6) (b "log.yaml") false))
+  = [b "bad syntax on line 4, ""  apple"".";
+     b "error converting ""x2"" to float on line 6 ""  milk x2"".";
+     []].
+Proof.
+  rewrite (lint_output_lines ZNum (mkw book_good log6) (b "log.yaml") log6 false).
+  - rewrite ex_log6_errors. vm_compute. reflexivity.
+  - discriminate.
+  - vm_compute. reflexivity.
+  - vm_compute. reflexivity.
+  - reflexivity.
+  - exact ex_log6_readable.
+Qed.
+
 Example ex_lint_clean :
   run_lint ZNum (mkw book_good log6) (b "food.yaml") false
   = {| out_stdout := b "No errors found" ++ [c_lf]; out_status := Ok |}.
@@ -92,30 +107,10 @@ Proof.
   - unfold readable. vm_compute. reflexivity.
 Qed.
 
-(** an over-long line after a malformed one: the message is printed, the status is ErrTooLong *)
-Definition long_line : bytes := repeat 97 (N.to_nat 65536).
-Definition log_long : bytes := lines [b "2024/01/01"; b "  apple"; long_line; b "  pear"].
-
-Example ex_lint_unreadable :
-  ~ readable log_long
-  /\ run_lint ZNum (mkw book_good log_long) (b "log.yaml") false
-     = {| out_stdout := b "bad syntax on line 2, ""  apple""." ++ [c_lf]; out_status := Failed (EScan true) |}.
-Proof.
-  assert (H : ~ readable log_long) by (unfold readable; vm_compute; discriminate).
-  split; [exact H|].
-  rewrite (lint_unreadable ZNum (mkw book_good log_long) (b "log.yaml") log_long false).
-  - vm_compute. reflexivity.
-  - discriminate.
-  - lazy - [log_long]. reflexivity.
-  - lazy - [log_long]. reflexivity.
-  - reflexivity.
-  - exact H.
-Qed.
-
 (** * malformed book: every book-reading command fails with the first message (line 5) *)
 Definition eb5 : perr := BadSyntax 5 (b "  water").
 Definition eb7 : perr := Conversion (b "x2") 7 (b "  leek x2").
-Definition broth : pnode ZNum := {| header := b "broth"; elems := [(b "water", 1%Z)]; meta := None |}.
+Definition broth : pnode ZNum := {| header := b "broth"; elems := [(b "water", 1%Z : T ZNum)]; meta := None |}.
 
 Example ex_book_errors : errors_of ZNum (events ZNum book_bad) = [eb5; eb7].
 Proof. vm_compute. reflexivity. Qed.
@@ -200,7 +195,7 @@ Qed.
 
 (** * malformed log: a good day is processed, then the command fails with the first message (line 6) *)
 Definition el6 : perr := BadSyntax 6 (b "  apple").
-Definition day1 : pnode ZNum := {| header := b "2024/01/01"; elems := [(b "soup", 2%Z)]; meta := None |}.
+Definition day1 : pnode ZNum := {| header := b "2024/01/01"; elems := [(b "soup", 2%Z : T ZNum)]; meta := None |}.
 Definition wl : world := mkw book_good log8.
 
 Example ex_log8_split : exists post, events ZNum log8 = [ENode day1] ++ EErr el6 :: post.
